@@ -825,6 +825,25 @@ def check_version(ctx):
               (f"the version exchange depends on how the stream is cut: stream {bad[0]!r} delivered as {bad[1]!r}: after {bad[2]!r} the transport {bad[3]}; reference (first "
                f"complete line starting with 'SSH-', judged on the accumulated buffer): gotVersion={bad[4][0]}, version={bad[4][1]!r}, buffer={bad[4][2]!r}") if bad else "")
     ctx.floor("version/segmentation-invariant", n_runs, 500, "runs")
+    # F35s: an identification line that merely contains 'SSH-', followed by a version line cut anywhere (own construct, so that it is keyed apart from
+    # every other stream of the rule above)
+    stream = b"this gateway speaks SSH- only\r\nSSH-2.0-peer\r\n\x00\x00"
+    bad_s = None
+    for cut in range(1, len(stream)):
+        chunks = [stream[:cut], stream[cut:]]
+        acc = b""
+        for ch, (gotv, ver, buf, evs, err) in zip(chunks, run(chunks)):
+            acc += ch
+            want = _ref_version(acc)
+            if b"SSH-2.0" not in acc:
+                continue                      # banner-only prefixes: F35a territory, judged there
+            if err is not None or gotv != want[0] or (want[0] and (ver, buf) != (want[1], want[2])):
+                bad_s = bad_s or (chunks, f"gotVersion={gotv}, version={ver!r}, buffer={buf!r}" if err is None else "raises " + err, want)
+                break
+    ctx.check(bad_s is None, "version/complete-line-only", q + " | <identification line containing 'SSH-' before a version line cut in two>",
+              (f"delivered as {bad_s[0]!r} the transport ends with {bad_s[1]}; on the accumulated bytes the first complete line starting with 'SSH-' gives "
+               f"gotVersion={bad_s[2][0]}, version={bad_s[2][1]!r}: the newline of the earlier line satisfies the completeness test and the unterminated tail of the "
+               "buffer is taken as the version line, the rest of that line is then parsed as a packet") if bad_s else "")
     # F35a: identification text in a segment of its own
     res = run([b"Welcome to the machine\r\n", b"SSH-2.0-peer\r\n"])
     early = [e for e in res[0][3] if e[0] == "getPacket" and not e[1]]
